@@ -745,9 +745,12 @@ def aoh_default_governs_non_aoh(case, obs):
     Array-of-Hashes (a Scalar or a plain Array) and no rule names it."""
     if _aoh_default(case) not in ("left", "right"):
         return False
-    E = _ENV
-    l = load(case[0])
-    r = load(case[1])
+    return aoh_governs_docs(case, load(case[0]), load(case[1]))
+
+
+def aoh_governs_docs(case, l, r):
+    """the shape test of F-C05-1 on two loaded documents (C10 also applies it to the pair
+    the anchor policy hands to the merge proper: replacing an anchored KEY can make a key common)"""
     rules = case[3] or {}
 
     def walk(lv, rv, path):
